@@ -4,6 +4,7 @@ import (
 	"bytes"
 	"fmt"
 	"runtime"
+	"sort"
 	"strconv"
 	"strings"
 	"sync"
@@ -31,6 +32,8 @@ type tdest struct {
 	cur   map[int64]*int64
 	plain bool
 	tag   bool
+	slow  int // 0: none; n: every delivery whose index is a multiple of n yields / sleeps first (widens a flush)
+	ndel  int64
 }
 
 func goid() int64 {
@@ -47,6 +50,15 @@ func (d *tdest) rec(l zerolog.Level, p []byte) {
 	var g, ix int64
 	if d.tag {
 		g = goid()
+	}
+	if d.slow > 0 {
+		if k := atomic.AddInt64(&d.ndel, 1); k%int64(d.slow) == 0 {
+			if k%2 == 0 {
+				runtime.Gosched()
+			} else {
+				time.Sleep(30 * time.Microsecond)
+			}
+		}
 	}
 	d.mu.Lock()
 	if c := d.cur[g]; c != nil {
@@ -183,6 +195,10 @@ func fmtLines(ls []tline) string {
 	for i, l := range ls {
 		if i > 0 {
 			sb.WriteString(" ")
+		}
+		if i == 80 {
+			fmt.Fprintf(&sb, "... %d more", len(ls)-i)
+			break
 		}
 		b := l.p
 		if len(b) > 24 {
@@ -339,7 +355,14 @@ func c15conc(args []string) int {
 			G, K = 2+r.Intn(15), 20+r.Intn(200)
 		}
 		cl, tl := zerolog.Level(r.Intn(4)), zerolog.Level(r.Intn(5))
+		if !small && r.Chance(1, 3) {
+			tl = 5 // above every written level: only an explicit Trigger() releases, after many lines were held
+		}
 		d := &tdest{tag: small, cur: map[int64]*int64{}}
+		if r.Chance(1, 2) {
+			d.slow = 1 + r.Intn(3) // a slow destination: a flush of held lines takes long enough for other writers to arrive
+			out.Count("concurrent_runs_with_slow_destination", 1)
+		}
 		tw := &zerolog.TriggerLevelWriter{Writer: tdestLW{d}, ConditionalLevel: cl, TriggerLevel: tl}
 		var reg sync.WaitGroup
 		reg.Add(G)
@@ -436,6 +459,70 @@ func c15conc(args []string) int {
 			}
 		}
 		_ = hasClose
+		// real-time order: if the write of line a had RETURNED before the write of line b was CALLED, a can never
+		// come after b at the destination - except when a is holdable (level <= ConditionalLevel) and b is not
+		// (b passes at once while a may still be held). Every linearization keeps the real-time order, and the
+		// sequential behaviour keeps write order within the held lines, within the passing lines, from a
+		// passing line to anything later, and for everything after the release.
+		{
+			pos := map[int]int{}
+			for i, l := range d.got {
+				var lid int
+				if _, err := fmt.Sscanf(l.p, "{\"id\":%d}\n", &lid); err == nil {
+					if _, dup := pos[lid]; !dup {
+						pos[lid] = i
+					}
+				}
+			}
+			type tev struct {
+				t    int64
+				call bool
+				id   int
+				low  bool
+			}
+			var evs []tev
+			for g := range recs {
+				for _, rc := range recs[g] {
+					if rc.in.kind != 0 {
+						continue
+					}
+					if _, ok := pos[rc.in.id]; !ok {
+						continue
+					}
+					evs = append(evs, tev{rc.call, true, rc.in.id, rc.in.lvl <= cl}, tev{rc.ret, false, rc.in.id, rc.in.lvl <= cl})
+				}
+			}
+			sort.Slice(evs, func(i, j int) bool { return evs[i].t < evs[j].t })
+			maxPos, maxID := [2]int{-1, -1}, [2]int{}
+			pairs := int64(0)
+		sweep:
+			for _, e := range evs {
+				k := 0
+				if e.low {
+					k = 1
+				}
+				if !e.call {
+					if pos[e.id] > maxPos[k] {
+						maxPos[k], maxID[k] = pos[e.id], e.id
+					}
+					continue
+				}
+				for c := 0; c < 2; c++ { // c=0: earlier passing lines bind everybody; c=1: earlier holdable lines bind holdable lines
+					if c == 1 && !e.low {
+						continue
+					}
+					if maxPos[c] >= 0 {
+						pairs++
+					}
+					if pos[e.id] < maxPos[c] {
+						out.Violate("conc-overtaken", fmt.Sprintf("line id %d reached the destination (position %d) BEFORE line id %d (position %d) although the write of %d had returned before the write of %d was called and %d could not legitimately be held longer than %d (G=%d K=%d cl=%d tl=%d, destination sequence %s)",
+							e.id, pos[e.id], maxID[c], maxPos[c], maxID[c], e.id, maxID[c], e.id, G, K, cl, tl, fmtLines(d.got)), map[string]interface{}{"check": "c15-conc", "run": run})
+						break sweep
+					}
+				}
+			}
+			out.Count("concurrent_realtime_order_constraints_checked", pairs)
+		}
 		if small {
 			// porcupine: output of each op = ids the destination received on that goroutine during the call.
 			// Destination writes are made synchronously by the calling goroutine, so gid identifies the op's
